@@ -93,6 +93,10 @@ type World struct {
 	SchedSalt uint64
 	M         *Models
 	G         *genState
+	R         *RelState
+	PendingVoted  int
+	PendingHashes int
+	Seen      map[string]bool
 	InitReq   *abci.RequestInitChain
 	Trace     bool
 	FirstViolationOnly bool
